@@ -148,9 +148,14 @@ def draw_system(rng, seed: int, prop: str, *, families=("single",) * 6 + ("cross
         fits["F0"] = {"views": ["A0", "B0"]}
         fits["F1"] = {"views": ["A1", "B1"]}
         fits["F2"] = {"views": ["A0", "B0", "C0"]}
-        new = {"F0": [], "F1": [], "F2": []}
-        bad = {"F0": [], "F1": [], "F2": []}
-        params = models.draw_multi_params(rng, [a, b, c])
+        # the same number of views with other feature counts
+        a2 = space.draw_layout(rng, **lay)
+        b2 = space.paired_layout(rng, a2, **lay)
+        descs.update(A2=a2, B2=b2)
+        fits["F3"] = {"views": ["A2", "B2"]}
+        new = {"F0": [], "F1": [], "F2": [], "F3": []}
+        bad = {"F0": [], "F1": [], "F2": [], "F3": []}
+        params = models.draw_multi_params(rng, [a, b, c, a2, b2])
     cfg.update(descs=descs, fits=fits, new=new, bad=bad, params=params)
     # "rotator focus" (half of the runs of classes that have a rotator): as many modes as the data allow, a flat
     # spectrum (so that the rotation re-ranks modes: the sorting bookkeeping only shows then) and a history
